@@ -58,10 +58,99 @@ const (
 )
 
 type claimSpec struct {
-	kind    string // "p" | "o" | "s:<ids>"
+	kind    string // "p" (send-to-fx) | "c" (bridge call) | "o" | "s:<ids>"
 	members []int
 	token   string
+	// deferred claims: where their effects land (measured after every op: ex=)
+	recv     sdk.AccAddress // send-to-fx receiver (fresh per claim)
+	contract common.Address // bridge-call target (fresh per claim; code is installed by the exec op)
+	refund   string         // bridge-call refund address (external format)
 }
+
+// callNode is one `executeClaim(chain, n)` call of an exec op: the call the harness sends (root) or a call the called-back
+// contract of the parent makes (kids, in order).  o: 'o' handler ok, 'r' contract call reverts -> refund, 'f' handler error.
+type callNode struct {
+	n    uint64
+	o    byte
+	kids []*callNode
+}
+
+func (c *callNode) forest() string {
+	var sb strings.Builder
+	sb.WriteByte('[')
+	for i, k := range c.kids {
+		if i > 0 {
+			sb.WriteByte(',')
+		}
+		fmt.Fprintf(&sb, "%d:%c%s", k.n, k.o, k.forest())
+	}
+	sb.WriteByte(']')
+	return sb.String()
+}
+
+func (c *callNode) size() int {
+	n := 1
+	for _, k := range c.kids {
+		n += k.size()
+	}
+	return n
+}
+
+func (c *callNode) depth() int {
+	d := 0
+	for _, k := range c.kids {
+		if x := k.depth(); x > d {
+			d = x
+		}
+	}
+	return d + 1
+}
+
+// parseForest parses `[n:o[...],...]`
+func parseForest(s string) ([]*callNode, string, bool) {
+	if len(s) == 0 || s[0] != '[' {
+		return nil, s, false
+	}
+	s = s[1:]
+	var out []*callNode
+	if len(s) > 0 && s[0] == ']' {
+		return out, s[1:], true
+	}
+	for {
+		i := 0
+		for i < len(s) && s[i] >= '0' && s[i] <= '9' {
+			i++
+		}
+		if i == 0 || i+1 >= len(s) || s[i] != ':' {
+			return nil, s, false
+		}
+		n, _ := strconv.ParseUint(s[:i], 10, 64)
+		node := &callNode{n: n, o: s[i+1]}
+		kids, rest, ok := parseForest(s[i+2:])
+		if !ok {
+			return nil, s, false
+		}
+		node.kids = kids
+		out = append(out, node)
+		s = rest
+		if len(s) == 0 {
+			return nil, s, false
+		}
+		if s[0] == ',' {
+			s = s[1:]
+			continue
+		}
+		if s[0] == ']' {
+			return out, s[1:], true
+		}
+		return nil, s, false
+	}
+}
+
+const (
+	callAmount = 1000 // bridged amount of every bridge-call claim (module token)
+	callGas    = 400_000 // gas a re-entrant contract gives to each executeClaim call
+)
 
 type world struct {
 	t   *testing.T
@@ -88,6 +177,15 @@ type world struct {
 	sender  string
 	recv    sdk.AccAddress
 	caller  common.Address
+	// a module-owned bridge token of this chain (bridged amounts of bridge-call claims): external contract, ERC-20
+	modToken string
+	modErc20 common.Address
+	exCache  string
+	exDirty  bool
+	lastObs  []obsEvent // `observation` events of the last routed message
+	touched  map[common.Address]bool // bridge-call targets whose claim was ever parked
+	touchedCode map[common.Address]bool // bridge-call targets that carry code
+	former      map[int][]int           // oracle id -> bridger ids it was registered with earlier (edit-bridger, unbond)
 
 	pr        sdkmath.Int
 	threshold sdkmath.Int
@@ -119,11 +217,22 @@ func newWorld(t *testing.T, s *hx.Suite, out *hx.Out, rng *rand.Rand, chain stri
 		gov:      authtypes.NewModuleAddress(govtypes.ModuleName).String(),
 		oracleID: map[string]int{}, bridgerID: map[string]int{}, extID: map[string]int{}, hashID: map[string]int{},
 		specs: map[[2]uint64]claimSpec{}, observedAt: map[uint64]string{}, executed: map[uint64]bool{},
-		rebonded: map[int]bool{}, reported: map[string]bool{}, unbonded: map[int]bool{}, pr: sdk.DefaultPowerReduction, multiple: mult}
+		rebonded: map[int]bool{}, reported: map[string]bool{}, unbonded: map[int]bool{}, touched: map[common.Address]bool{}, touchedCode: map[common.Address]bool{}, former: map[int][]int{}, pr: sdk.DefaultPowerReduction, multiple: mult}
 	w.threshold = w.pr.MulRaw(thrUnits)
 	rich := sdk.NewCoin(fxtypes.DefaultDenom, w.pr.MulRaw(100_000_000))
+	poor := -1 // one oracle account that can pay the minimum stake twice but not more: larger bonds / add-delegates fail in the bank
+	if nO >= 3 && rng.Intn(2) == 0 {
+		poor = nO - 1
+	}
 	for i := 0; i < nO; i++ {
 		a := helpers.GenAccAddress()
+		if i == poor {
+			s.MintToken(a, sdk.NewCoin(fxtypes.DefaultDenom, w.threshold.MulRaw(2)))
+			w.oracles = append(w.oracles, a)
+			w.oracleID[a.String()] = oracleBase + i
+			out.Count("world:underfunded-oracle")
+			continue
+		}
 		s.MintToken(a, rich)
 		w.oracles = append(w.oracles, a)
 		w.oracleID[a.String()] = oracleBase + i
@@ -167,6 +276,21 @@ func newWorld(t *testing.T, s *hx.Suite, out *hx.Out, rng *rand.Rand, chain stri
 	_ = w.k.AddBridgeTokenExecuted(s.Ctx, &crosschaintypes.MsgBridgeTokenClaim{TokenContract: w.fxToken, Name: "Function X",
 		Symbol: fxtypes.DefaultDenom, Decimals: 18, ChainName: chain})
 	s.MintTokenToModule(chain, sdk.NewCoin(fxtypes.DefaultDenom, w.pr.MulRaw(1000)))
+	// a module-owned token bridged from this chain, for bridge-call claims; the callback sender pays `value` = 1 per callback
+	w.modToken = helpers.GenExternalAddr(chain)
+	sym := "TK" + strings.ToUpper(chain)
+	md := fxtypes.GetCrossChainMetadataManyToOne("Token "+sym, sym, 18, crosschaintypes.NewBridgeDenom(chain, w.modToken))
+	pair, perr := s.App.Erc20Keeper.RegisterNativeCoin(s.Ctx, md)
+	if perr != nil {
+		t.Fatalf("RegisterNativeCoin: %v", perr)
+	}
+	w.modErc20 = pair.GetERC20Contract()
+	if err := w.k.AddBridgeTokenExecuted(s.Ctx, &crosschaintypes.MsgBridgeTokenClaim{TokenContract: w.modToken, Name: "Token " + sym,
+		Symbol: sym, Decimals: 18, ChainName: chain}); err != nil {
+		t.Fatalf("AddBridgeTokenExecuted: %v", err)
+	}
+	s.MintToken(w.k.GetCallbackFrom().Bytes(), sdk.NewCoin(fxtypes.DefaultDenom, sdkmath.NewInt(1_000_000)))
+	w.exDirty = true
 	w.prevLo = w.k.GetLastObservedEventNonce(s.Ctx)
 	frac := p.SlashFraction.BigInt() // Dec mantissa
 	out.Reset(w.threshold.String(), strconv.FormatInt(mult, 10), frac.String(), chain, strconv.FormatUint(window, 10), strconv.Itoa(nO))
@@ -205,22 +329,74 @@ func (w *world) route(m sdk.Msg, skipVB ...bool) (res string, err error) {
 		}
 	}
 	cctx, write := w.s.Ctx.CacheContext()
+	var evs sdk.Events
 	r := hx.Try(func() error {
 		if eb, ok := m.(*crosschaintypes.MsgEditBridger); ok && len(skipVB) > 0 {
 			// the SDK's routed handler runs ValidateBasic itself; go to the chain's message server
 			_, err = crosschainkeeper.NewMsgServerImpl(w.k).EditBridger(cctx, eb)
 			return nil
 		}
-		_, err = w.s.App.MsgServiceRouter().Handler(m)(cctx, m)
+		var sres *sdk.Result
+		sres, err = w.s.App.MsgServiceRouter().Handler(m)(cctx, m)
+		if sres != nil {
+			evs = sres.GetEvents()
+		}
 		return nil
 	})
 	if strings.HasPrefix(r, "panic") {
 		return r, errors.New(r)
 	}
+	w.lastObs = w.lastObs[:0]
 	if err == nil {
+		// `observation` events emitted by the handler (one per event nonce that took effect): nonce / claim hash / handler success
+		for _, ev := range evs {
+			if ev.Type != crosschaintypes.EventTypeContractEvent {
+				continue
+			}
+			var oe obsEvent
+			for _, a := range ev.Attributes {
+				switch a.Key {
+				case crosschaintypes.AttributeKeyEventNonce:
+					oe.nonce, _ = strconv.ParseUint(a.Value, 10, 64)
+				case crosschaintypes.AttributeKeyClaimHash:
+					oe.hash = a.Value
+				case crosschaintypes.AttributeKeyStateSuccess:
+					oe.ok = a.Value == "true"
+				case sdk.AttributeKeyModule:
+					oe.module = a.Value
+				}
+			}
+			if oe.module == w.chain {
+				w.lastObs = append(w.lastObs, oe)
+			}
+		}
 		write()
 	}
 	return classify(err), err
+}
+
+type obsEvent struct {
+	nonce  uint64
+	hash   string
+	ok     bool
+	module string
+}
+
+// evLine: the event nonce / claim-hash id the op made take effect, from the emitted `observation` events ("-" if none);
+// the model prints the entry its step appended to the observation log.
+func (w *world) evLine() string {
+	if len(w.lastObs) == 0 {
+		return "-"
+	}
+	var xs []string
+	for _, e := range w.lastObs {
+		id, ok := w.hashID[e.hash]
+		if !ok {
+			id = 900000
+		}
+		xs = append(xs, fmt.Sprintf("%d/%d", e.nonce, id))
+	}
+	return strings.Join(xs, "+")
 }
 
 // ---------------------------------------------------------------------------------------------------------
@@ -331,9 +507,83 @@ func (w *world) observe() string {
 	for _, p := range hx.RawPrefix(ctx, w.key, crosschaintypes.PendingExecuteClaimKey) {
 		pend = append(pend, strconv.FormatUint(sdk.BigEndianToUint64(p[0][1:]), 10))
 	}
-	return fmt.Sprintf("lo=%d tp=%s ln=%s or=%s bb=%s be=%s prop=%s atts=%s pend=%s",
+	ev := w.evLine()
+	w.lastObs = w.lastObs[:0]
+	return fmt.Sprintf("lo=%d tp=%s ln=%s or=%s bb=%s be=%s prop=%s atts=%s pend=%s ex=%s ev=%s",
 		w.k.GetLastObservedEventNonce(ctx), w.k.GetLastTotalPower(ctx).String(), joinOr(ln, ","), joinOr(ors, ","), joinOr(bb, ","),
-		joinOr(be, ","), joinOr(prop, ","), joinOr(at, ";"), joinOr(pend, ","))
+		joinOr(be, ","), joinOr(prop, ","), joinOr(at, ";"), joinOr(pend, ","), w.effectsLine(), ev)
+}
+
+// effects measures, on the real state, how many times the deferred effects of every event nonce are in force:
+//   - send-to-fx claim (n,h): FX balance of its (fresh) receiver / bridged amount;
+//   - bridge-call claim (n,h): ERC-20 balance of its (fresh) target / bridged amount  (credits that were kept)
+//     + outgoing bridge-call records created for event nonce n                       (credits that were refunded).
+func (w *world) effects() map[uint64]int64 {
+	ctx := w.s.Ctx
+	res := map[uint64]int64{}
+	for k, sp := range w.specs {
+		switch sp.kind {
+		case "p":
+			b := w.s.App.BankKeeper.GetBalance(ctx, sp.recv, fxtypes.DefaultDenom).Amount
+			if b.IsPositive() {
+				res[k[0]] += b.QuoRaw(int64(1 + k[1])).Int64()
+			}
+		case "c":
+			if !w.touched[sp.contract] {
+				continue
+			}
+			b, err := w.s.App.EvmKeeper.ERC20BalanceOf(ctx, w.modErc20, sp.contract)
+			if err != nil {
+				w.t.Fatalf("ERC20BalanceOf: %v", err)
+			}
+			if b.Sign() > 0 {
+				res[k[0]] += new(big.Int).Quo(b, big.NewInt(callAmount)).Int64()
+			}
+		}
+	}
+	w.k.IterateOutgoingBridgeCalls(ctx, func(o *crosschaintypes.OutgoingBridgeCall) bool {
+		if o.EventNonce > 0 {
+			res[o.EventNonce]++
+		}
+		return false
+	})
+	return res
+}
+
+// effectsLine: `nonce:times,...` ("-" when nothing is in force); ERC-20 balances are re-read only after ops that can
+// move them (exec, and claims that advanced the last observed nonce).
+func (w *world) effectsLine() string {
+	if !w.exDirty {
+		return w.exCache
+	}
+	m := w.effects()
+	var ks []uint64
+	for k := range m {
+		ks = append(ks, k)
+	}
+	sort.Slice(ks, func(i, j int) bool { return ks[i] < ks[j] })
+	var xs []string
+	for _, k := range ks {
+		xs = append(xs, fmt.Sprintf("%d:%d", k, m[k]))
+		if m[k] > 1 {
+			w.violate("C01", fmt.Sprintf("a claim parked for later execution ran its effects more than once: effects of event nonce %d are in force %d times", k, m[k]))
+		}
+		if _, ok := w.observedAt[k]; !ok && m[k] > 0 && !w.pendingNow(k) {
+			// (observedAt is filled by monitors() after the op that observed it; an exec in the same op cannot precede it)
+			w.violate("C01", fmt.Sprintf("deferred effects of event nonce %d are in force although it was never observed", k))
+		}
+		if m[k] > 0 && w.pendingNow(k) {
+			w.violate("C01", fmt.Sprintf("deferred effects of event nonce %d are in force while its claim is still parked (it can run again)", k))
+		}
+	}
+	w.exCache = joinOr(xs, ",")
+	w.exDirty = false
+	return w.exCache
+}
+
+func (w *world) pendingNow(n uint64) bool {
+	_, ok := w.k.GetPendingExecuteClaim(w.s.Ctx, n)
+	return ok
 }
 
 // ---------------------------------------------------------------------------------------------------------
@@ -391,6 +641,23 @@ func (w *world) monitors(before pre) {
 	}
 	if total.LT(online) {
 		w.violate("C02", fmt.Sprintf("recorded total power %s is lower than the combined power %s of the online oracles", total, online))
+	}
+	// the bridger index: every entry must name the bridger registered in the record of the oracle it points at (otherwise
+	// an address that is not the oracle's registered bridger can cast its vote)
+	for _, p := range hx.RawPrefix(ctx, w.key, crosschaintypes.OracleAddressByBridgerKey) {
+		b := sdk.AccAddress(p[0][1:])
+		o, found := w.k.GetOracle(ctx, sdk.AccAddress(p[1]))
+		if !found || o.BridgerAddress != b.String() {
+			key := "bridger-index/" + b.String()
+			if !w.reported[key] {
+				w.reported[key] = true
+				reg := "none (no such oracle)"
+				if found {
+					reg = strconv.Itoa(w.bridgerID[o.BridgerAddress])
+				}
+				w.violate("C01 C02", fmt.Sprintf("bridger index lets bridger %d vote for oracle %d whose registered bridger is %s", w.bridgerID[b.String()], w.oid(sdk.AccAddress(p[1]).String()), reg))
+			}
+		}
 	}
 	perNonce := map[uint64]map[string]int{}
 	for _, a := range w.atts() {
@@ -484,6 +751,9 @@ func (w *world) spec(n, h uint64, wantKind string) claimSpec {
 		sp.kind = "s:" + strings.Join(ids, ",")
 	}
 	sp.token = helpers.GenExternalAddr(w.chain)
+	sp.recv = helpers.GenAccAddress()
+	sp.contract = helpers.GenHexAddress()
+	sp.refund = helpers.GenExternalAddr(w.chain)
 	w.specs[k] = sp
 	return sp
 }
@@ -497,9 +767,23 @@ func (w *world) mkClaim(n, h uint64, sp claimSpec, bridger string) crosschaintyp
 			token = w.fxToken
 		}
 		return &crosschaintypes.MsgSendToFxClaim{EventNonce: n, BlockHeight: ext, TokenContract: token, Amount: sdkmath.NewInt(int64(1 + h)),
-			Sender: w.sender, Receiver: w.recv.String(), BridgerAddress: bridger, ChainName: w.chain}
+			Sender: w.sender, Receiver: sp.recv.String(), BridgerAddress: bridger, ChainName: w.chain}
+	case sp.kind == "c":
+		// bridge call to a (possibly re-entrant) contract: the module token when h is even, an unknown token (the deferred
+		// handler fails before the callback) when h is odd; the callback carries value 1
+		token := sp.token
+		if h%2 == 0 {
+			token = w.modToken
+		}
+		return &crosschaintypes.MsgBridgeCallClaim{ChainName: w.chain, BridgerAddress: bridger, EventNonce: n, BlockHeight: ext,
+			Sender: w.sender, Refund: sp.refund, TokenContracts: []string{token}, Amounts: []sdkmath.Int{sdkmath.NewInt(callAmount)},
+			To: crosschaintypes.ExternalAddrToStr(w.chain, sp.contract.Bytes()), Data: "", Value: sdkmath.OneInt(), Memo: "", TxOrigin: w.sender}
 	case sp.kind == "o":
-		return &crosschaintypes.MsgBridgeTokenClaim{EventNonce: n, BlockHeight: ext, TokenContract: sp.token, Name: "T", Symbol: fmt.Sprintf("S%dX%d", n, h),
+		token := sp.token
+		if h%3 == 2 || (h == 0 && n%5 == 0) {
+			token = w.modToken // already registered: the event is observed, its handler fails ("bridge token is exist")
+		}
+		return &crosschaintypes.MsgBridgeTokenClaim{EventNonce: n, BlockHeight: ext, TokenContract: token, Name: "T", Symbol: fmt.Sprintf("S%dX%d", n, h),
 			Decimals: 18, BridgerAddress: bridger, ChainName: w.chain}
 	default:
 		var ms []crosschaintypes.BridgeValidator
@@ -570,13 +854,44 @@ func (w *world) opClaim(wrapper, inner int, n, h uint64, kind string) string {
 		}
 	}
 	before := w.snapshot()
+	nAtts := len(w.atts())
 	res, _ := w.route(&crosschaintypes.MsgClaim{ChainName: w.chain, BridgerAddress: wa.String(), Claim: anyv})
+	if len(w.atts()) < nAtts {
+		w.out.Count("claim:pruned-attestations")
+	}
+	if lo2 := w.k.GetLastObservedEventNonce(w.s.Ctx); lo2 != w.prevLo {
+		for k, s2 := range w.specs {
+			if s2.kind == "c" && k[0] <= lo2 {
+				w.touched[s2.contract] = true
+			}
+		}
+		w.exDirty = true
+	}
 	if res == "ok" && found {
 		if n != expect {
 			w.violate("C01", fmt.Sprintf("claim accepted for event nonce %d although the oracle's next nonce is %d (skipped or repeated a nonce)", n, expect))
 		}
 		if bz := w.s.Ctx.KVStore(w.key).Get(crosschaintypes.GetLastEventNonceByOracleKey(oa)); sdk.BigEndianToUint64(bz) != n {
 			w.violate("C01", fmt.Sprintf("accepted claim for nonce %d did not move the oracle's last event nonce to it", n))
+		}
+	}
+	// event level: an event nonce takes effect at most once per message, exactly when the last observed nonce moved, and
+	// it is the next nonce
+	{
+		lo2 := w.k.GetLastObservedEventNonce(w.s.Ctx)
+		if len(w.lastObs) > 1 {
+			w.violate("C01", fmt.Sprintf("one claim message made %d events take effect (observation events)", len(w.lastObs)))
+		}
+		for _, e := range w.lastObs {
+			if e.nonce != w.prevLo+1 {
+				w.violate("C01", fmt.Sprintf("observation event for event nonce %d while the last observed nonce was %d (out of order)", e.nonce, w.prevLo))
+			}
+			if !e.ok {
+				w.out.Count("observed:handler-failed")
+			}
+		}
+		if (lo2 != w.prevLo) != (len(w.lastObs) > 0) {
+			w.violate("C01", fmt.Sprintf("last observed nonce moved %d -> %d with %d observation events", w.prevLo, lo2, len(w.lastObs)))
 		}
 	}
 	if res == "err:validate-basic" && wrapper != inner {
@@ -631,6 +946,13 @@ func (w *world) opEditBridger(o, b int) string {
 	if !ok1 || !ok2 {
 		return "skip"
 	}
+	if orc, found := w.k.GetOracle(w.s.Ctx, oa); found {
+		defer func(old int) {
+			if cur, f := w.k.GetOracle(w.s.Ctx, oa); !f || w.bridgerID[cur.BridgerAddress] != old {
+				w.former[o] = append(w.former[o], old)
+			}
+		}(w.bridgerID[orc.BridgerAddress])
+	}
 	before := w.snapshot()
 	// MsgEditBridger.ValidateBasic demands a *validator* bech32 bridger address while the handler parses an account
 	// address, so no transaction can edit a bridger on this tree; the handler is driven directly (message-server level),
@@ -652,6 +974,11 @@ func (w *world) opUnbond(o int) string {
 	}
 	ubd, bal := false, sdkmath.ZeroInt()
 	if orc, found := w.k.GetOracle(w.s.Ctx, oa); found {
+		defer func(old int) {
+			if _, f := w.k.GetOracle(w.s.Ctx, oa); !f {
+				w.former[o] = append(w.former[o], old)
+			}
+		}(w.bridgerID[orc.BridgerAddress])
 		da := orc.GetDelegateAddress(w.chain)
 		if _, err := w.s.App.StakingKeeper.GetUnbondingDelegation(w.s.Ctx, da, orc.GetValidator()); err == nil {
 			ubd = true
@@ -721,10 +1048,83 @@ func (w *world) opEndBlock(blocks int64) string {
 	return res
 }
 
-// opExec calls the real crosschain precompile `executeClaim(chain, nonce)` through the EVM.
-func (w *world) opExec(n uint64) string {
+// reentrantCode: runtime code of a bridge-call target.  When it is called while its own native balance is exactly 1 (the
+// callback carries value 1, so: during the first callback that is in force) it calls
+// `crosschain.executeClaim(chain, m)` for every m of `calls`, in order, ignoring the results, and then stops or reverts;
+// at any other balance it just stops (this only bounds the recursion on trees where a parked claim can be re-entered).
+func reentrantCode(pre common.Address, datas [][]byte, revert bool) []byte {
+	// SELFBALANCE PUSH1 1 EQ PUSH1 L JUMPI STOP L: JUMPDEST
+	code := []byte{0x47, 0x60, 0x01, 0x14, 0x60, 0x08, 0x57, 0x00, 0x5b}
+	type fix struct{ at, idx int }
+	var fixes []fix
+	for i, d := range datas {
+		code = append(code, 0x61, byte(len(d)>>8), byte(len(d)), 0x61, 0, 0) // PUSH2 size PUSH2 offset(code)
+		fixes = append(fixes, fix{len(code) - 2, i})
+		code = append(code, 0x60, 0x00, 0x39) // PUSH1 0 CODECOPY
+		// retSize 0, retOffset 0, argsSize, argsOffset 0, value 0, PUSH20 precompile, PUSH3 gas, CALL, POP
+		// (a fixed gas allowance per call: a precompile call that returns an error burns all the gas it was given)
+		code = append(code, 0x60, 0x00, 0x60, 0x00, 0x61, byte(len(d)>>8), byte(len(d)), 0x60, 0x00, 0x60, 0x00, 0x73)
+		code = append(code, pre.Bytes()...)
+		code = append(code, 0x62, byte((callGas>>16)&0xff), byte((callGas>>8)&0xff), byte(callGas&0xff), 0xf1, 0x50)
+	}
+	if revert {
+		code = append(code, 0x60, 0x00, 0x60, 0x00, 0xfd)
+	} else {
+		code = append(code, 0x00)
+	}
+	for _, f := range fixes {
+		off := len(code)
+		code[f.at], code[f.at+1] = byte(off>>8), byte(off)
+		code = append(code, datas[f.idx]...)
+	}
+	return code
+}
+
+func (w *world) execData(n uint64) []byte {
+	d, err := crosschaintypes.GetABI().Pack("executeClaim", w.chain, new(big.Int).SetUint64(n))
+	if err != nil {
+		w.t.Fatal(err)
+	}
+	return d
+}
+
+// install puts the code realising the call tree on the targets of the parked bridge-call claims that occur in it (the
+// first occurrence of a nonce defines what its contract does).
+func (w *world) install(root *callNode) {
+	done := map[uint64]bool{}
+	var walk func(c *callNode)
+	walk = func(c *callNode) {
+		if !done[c.n] {
+			done[c.n] = true
+			if cl, ok := w.k.GetPendingExecuteClaim(w.s.Ctx, c.n); ok {
+				// a leaf with an odd nonce keeps a target without code (no callback at all) unless code was installed before
+				if bc, ok := cl.(*crosschaintypes.MsgBridgeCallClaim); ok && (len(c.kids) > 0 || c.o == 'r' || c.n%2 == 0 || w.touchedCode[bc.GetToAddr()]) {
+					w.touchedCode[bc.GetToAddr()] = true
+					var datas [][]byte
+					for _, k := range c.kids {
+						datas = append(datas, w.execData(k.n))
+					}
+					if err := w.s.App.EvmKeeper.CreateContractWithCode(w.s.Ctx, bc.GetToAddr(), reentrantCode(crosschaintypes.GetAddress(), datas, c.o == 'r')); err != nil {
+						w.t.Fatalf("CreateContractWithCode: %v", err)
+					}
+					w.touched[bc.GetToAddr()] = true
+				}
+			}
+		}
+		for _, k := range c.kids {
+			walk(k)
+		}
+	}
+	walk(root)
+}
+
+// opExec calls the real crosschain precompile `executeClaim(chain, n)` through the EVM; the targets of parked bridge-call
+// claims are contracts that call `executeClaim` again from inside the callback, as `root` prescribes.
+func (w *world) opExec(root *callNode) string {
+	n := root.n
 	_, pending := w.k.GetPendingExecuteClaim(w.s.Ctx, n)
 	before := w.snapshot()
+	w.install(root)
 	from := w.caller
 	var err error
 	r := hx.Try(func() error {
@@ -752,7 +1152,15 @@ func (w *world) opExec(n uint64) string {
 		}
 		w.executed[n] = true
 	}
-	w.out.Emit(fmt.Sprintf("exec %d %d", n, b2i(res == "err:exec-failed")), res+" "+w.observe())
+	// how the handler of the outermost call ended is an input of the model: an error of the real handler is `f`
+	o := root.o
+	if res == "err:exec-failed" {
+		o = 'f'
+	} else if o == 'f' {
+		o = 'o'
+	}
+	w.exDirty = true
+	w.out.Emit(fmt.Sprintf("exec %d %c %s", n, o, root.forest()), res+" "+w.observe())
 	w.monitors(before)
 	return res
 }
@@ -805,8 +1213,12 @@ func (w *world) runLine(line string) {
 			}
 		}
 		w.opEndBlock(blocks)
+	case f[0] == "exec" && len(f) >= 4:
+		if kids, rest, ok := parseForest(f[3]); ok && rest == "" && len(f[2]) == 1 {
+			w.opExec(&callNode{n: atou(f[1]), o: f[2][0], kids: kids})
+		}
 	case f[0] == "exec" && len(f) >= 2:
-		w.opExec(atou(f[1]))
+		w.opExec(&callNode{n: atou(f[1]), o: 'o'})
 	}
 }
 
@@ -952,8 +1364,90 @@ func (w *world) randKind(n, h uint64) string {
 			return "p"
 		}
 		return "s:" + strings.Join(ms, ",")
+	case 3, 4, 5:
+		return "c"
 	}
 	return "p"
+}
+
+// genTree builds the call tree of one exec op from per-claim plans (what the target contract of a parked bridge-call claim
+// does during its callback): re-enter its own nonce, call an ancestor's nonce, another parked nonce, a nonce that is not
+// parked; revert at the end or not.  The same nonce gets the same plan wherever it occurs in the tree.
+func (w *world) genTree(n uint64) *callNode {
+	type plan struct {
+		calls  []uint64
+		revert bool
+	}
+	plans := map[uint64]*plan{}
+	var pend []uint64
+	for _, p := range hx.RawPrefix(w.s.Ctx, w.key, crosschaintypes.PendingExecuteClaimKey) {
+		pend = append(pend, sdk.BigEndianToUint64(p[0][1:]))
+	}
+	lo := w.k.GetLastObservedEventNonce(w.s.Ctx)
+	budget := 2 + w.rng.Intn(8)
+	var gen func(n uint64, anc []uint64, depth int) *callNode
+	gen = func(n uint64, anc []uint64, depth int) *callNode {
+		node := &callNode{n: n, o: 'o'}
+		cl, found := w.k.GetPendingExecuteClaim(w.s.Ctx, n)
+		if !found {
+			return node
+		}
+		switch c := cl.(type) {
+		case *crosschaintypes.MsgSendToFxClaim:
+			if c.TokenContract != w.fxToken {
+				node.o = 'f'
+			}
+			return node
+		case *crosschaintypes.MsgBridgeCallClaim:
+			if c.TokenContracts[0] != w.modToken {
+				node.o = 'f'
+				return node
+			}
+		default:
+			return node
+		}
+		for _, a := range anc {
+			if a == n {
+				return node // re-entered while its own callback is running: the contract is at balance 2 and stops
+			}
+		}
+		pl := plans[n]
+		if pl == nil {
+			pl = &plan{revert: w.rng.Intn(5) == 0}
+			k := 0
+			if depth < 4 {
+				k = []int{0, 1, 1, 2, 2, 3}[w.rng.Intn(6)]
+			}
+			for i := 0; i < k && budget > 0; i++ {
+				budget--
+				var m uint64
+				switch r := w.rng.Intn(10); {
+				case r < 3:
+					m = n // re-enter the nonce being executed
+					w.out.Count("exec:plan:re-enter-own-nonce")
+				case r < 4 && len(anc) > 0:
+					m = anc[w.rng.Intn(len(anc))]
+					w.out.Count("exec:plan:ancestor-nonce")
+				case r < 9 && len(pend) > 0:
+					m = pend[w.rng.Intn(len(pend))]
+					w.out.Count("exec:plan:other-parked-nonce")
+				default:
+					m = 1 + uint64(w.rng.Int63n(int64(lo)+2))
+					w.out.Count("exec:plan:random-nonce")
+				}
+				pl.calls = append(pl.calls, m)
+			}
+			plans[n] = pl
+		}
+		if pl.revert {
+			node.o = 'r'
+		}
+		for _, m := range pl.calls {
+			node.kids = append(node.kids, gen(m, append(append([]uint64{}, anc...), n), depth+1))
+		}
+		return node
+	}
+	return gen(n, nil, 0)
 }
 
 func (w *world) randomClaim() {
@@ -976,6 +1470,22 @@ func (w *world) randomClaim() {
 			n = r.lastEff + 2 // skip
 		case 2:
 			n = lo + 1
+		}
+	}
+	// a bridger the oracle was registered with earlier (before an edit-bridger / an unbond), with the nonce that would be
+	// accepted from its current bridger
+	if len(regs) > 0 && w.rng.Intn(15) == 0 {
+		var cands []orcView
+		for _, r := range regs {
+			if len(w.former[r.id]) > 0 && r.o.Online {
+				cands = append(cands, r)
+			}
+		}
+		if len(cands) > 0 {
+			r := cands[w.rng.Intn(len(cands))]
+			inner = w.former[r.id][w.rng.Intn(len(w.former[r.id]))]
+			n = r.lastEff + 1
+			w.out.Count("claim:through-former-bridger")
 		}
 	}
 	if n == 0 {
@@ -1085,6 +1595,16 @@ func (w *world) randomOp() {
 		if w.rng.Intn(4) == 0 {
 			amt = sdkmath.NewInt(1 + w.rng.Int63n(1000))
 		}
+		// boundary: a slashed oracle returns paying exactly its slash amount (no stake moves), one unit less, one unit more
+		if oa, ok := w.oracleAddr(o); ok {
+			if orc, found := w.k.GetOracle(w.s.Ctx, oa); found && !orc.Online && w.rng.Intn(2) == 0 {
+				if sl := orc.GetSlashAmount(w.k.GetSlashFraction(w.s.Ctx)); sl.IsPositive() {
+					d := int64(w.rng.Intn(3)) - 1
+					amt = sl.AddRaw(d)
+					w.out.Count(fmt.Sprintf("adddel:amount=slash%+d", d))
+				}
+			}
+		}
 		res := w.opAddDelegate(o, amt)
 		w.out.Count("adddel:" + res)
 	case r < 78:
@@ -1152,8 +1672,13 @@ func (w *world) randomOp() {
 		if len(pend) > 0 && w.rng.Intn(5) != 0 {
 			n = sdk.BigEndianToUint64(pend[w.rng.Intn(len(pend))][0][1:])
 		}
-		res := w.opExec(n)
+		tree := w.genTree(n)
+		res := w.opExec(tree)
 		w.out.Count("exec:" + res)
+		w.out.Count(fmt.Sprintf("exec:tree-depth=%d", tree.depth()))
+		if tree.size() > 1 {
+			w.out.Count("exec:with-nested-calls:" + res)
+		}
 	}
 }
 
@@ -1173,6 +1698,50 @@ func boundaryStakes(rng *rand.Rand, nO int, lo, hi int64) []int64 {
 		}
 	}
 	return us
+}
+
+// runLongHistory: two oracles observe more than MaxKeepEventSize event nonces one after the other (pruning boundary at
+// lastObserved = MaxKeepEventSize, +1, +2), a third oracle bonds late (absent-key fallback far from 0) and catches up with
+// competing hashes; old parked claims are executed after their attestations were pruned.
+func runLongHistory(t *testing.T, s *hx.Suite, out *hx.Out, rng *rand.Rand, chain string) *world {
+	w := newWorld(t, s, out, rng, chain, 4, 1, 100, "0.1", 30000)
+	w.opGov([]int{1, 2, 3, 4})
+	w.opBond(1, 101, 201, w.units(34))
+	w.opBond(2, 102, 202, w.units(33))
+	w.opBond(3, 103, 203, w.units(10)) // total 77, bar 50: 34+33 reaches it, 34+10 and 33+10 do not
+	total := uint64(crosschaintypes.MaxKeepEventSize) + 4 + uint64(rng.Intn(6))
+	late := 20 + uint64(rng.Intn(60))
+	for n := uint64(1); n <= total; n++ {
+		kind := []string{"p", "c", "o"}[rng.Intn(3)]
+		if rng.Intn(6) == 0 {
+			// the small oracle catches up with competing claims first (no quorum), then the two big ones agree
+			for m := w.k.GetLastEventNonceByOracle(w.s.Ctx, w.oracles[2]) + 1; m <= n; m++ {
+				w.opClaim(103, 103, m, 1, kind)
+			}
+		}
+		w.opClaim(101, 101, n, 0, kind)
+		w.opClaim(102, 102, n, 0, kind)
+		if n == late {
+			w.opBond(4, 104, 204, w.units(5))
+		}
+		if n > late && rng.Intn(3) == 0 {
+			m := w.k.GetLastEventNonceByOracle(w.s.Ctx, w.oracles[3]) + 1
+			w.opClaim(104, 104, m, uint64(rng.Intn(2)), "p")
+		}
+		if rng.Intn(10) == 0 {
+			m := 1 + uint64(rng.Int63n(int64(n)))
+			w.opExec(w.genTree(m))
+		}
+	}
+	if lo := w.k.GetLastObservedEventNonce(w.s.Ctx); lo > crosschaintypes.MaxKeepEventSize {
+		out.Count("scenario:long-history(pruning)")
+	} else {
+		out.Count(fmt.Sprintf("scenario:long-history:stuck-at-%d", lo))
+	}
+	for i := 0; i < 40; i++ {
+		w.randomOp()
+	}
+	return w
 }
 
 func runRandom(t *testing.T, s *hx.Suite, out *hx.Out, rng *rand.Rand, chain string, steps int, nO int) *world {
@@ -1454,6 +2023,7 @@ func TestC01(t *testing.T) {
 	}
 
 	chains := []string{"eth", "bsc", "tron"}
+	runLongHistory(t, hx.NewSuite(t, 1), out, rng, chains[rng.Intn(3)])
 	nSeq := hx.N(300, 2400)
 	for it := 0; it < nSeq; {
 		s := hx.NewSuite(t, 1+rng.Intn(3))
@@ -1466,6 +2036,10 @@ func TestC01(t *testing.T) {
 			if hx.Tier() == "thorough" && rng.Intn(10) == 0 {
 				nO = 10 + rng.Intn(30)
 				steps = 300
+				if rng.Intn(8) == 0 {
+					nO = 100 // MaxOracleSize-scale set
+					out.Count("oracles=100")
+				}
 			}
 			w := runRandom(t, s, out, rng, chain, steps, nO)
 			if it%5 == 0 {
